@@ -391,11 +391,22 @@ fn stag(input: &str) -> IResult<&str, model::Element<'_>> {
     map(
         delimited(
             tag("<"),
-            tuple((qname, many0(preceded(multispace1, attribute)))),
+            verify(
+                tuple((qname, many0(preceded(multispace1, attribute)))),
+                |(_, attrs)| unique_att_spec(attrs),
+            ),
             tuple((multispace0, tag(">"))),
         ),
         model::Element::from,
     )(input)
+}
+
+/// WFC: Unique Att Spec
+fn unique_att_spec(attrs: &[model::Attribute<'_>]) -> bool {
+    attrs
+        .iter()
+        .enumerate()
+        .all(|(i, a)| attrs[..i].iter().all(|b| a.name != b.name))
 }
 
 /// Name Eq AttValue
@@ -458,7 +469,10 @@ fn empty_entity_tag(input: &str) -> IResult<&str, model::Element<'_>> {
     map(
         delimited(
             tag("<"),
-            tuple((qname, many0(preceded(multispace1, attribute)))),
+            verify(
+                tuple((qname, many0(preceded(multispace1, attribute)))),
+                |(_, attrs)| unique_att_spec(attrs),
+            ),
             tuple((multispace0, tag("/>"))),
         ),
         model::Element::from,
